@@ -387,8 +387,9 @@ class VizierServicer(vizier_service_pb2_grpc.VizierServiceServicer):
         suggest_decision_proto = temp_pythia_service.Suggest(
             suggest_request_proto
         )
-      # Pythia can raise any exception, captured inside grpc.RpcError.
-      except grpc.RpcError as e:
+      # Pythia can raise any exception: a grpc.RpcError from a remote Pythia
+      # server, or the original exception from an in-process PythiaServicer.
+      except Exception as e:  # pylint: disable=broad-except
         output_op.error.CopyFrom(
             status_pb2.Status(code=code_pb2.Code.INTERNAL, message=str(e))
         )
